@@ -155,6 +155,7 @@ def check(ctx: Ctx) -> None:
                               c.module.path, c.node.lineno, operand=meth)
     _check_scale(ctx, ser_terms)
     _check_overrides(ctx, ser_terms)
+    _check_ber_overrides(ctx)
     from ..idioms import check_input_immutability, public_api
     fns = [f for f in public_api(ctx.model, [FUND]) if 'Theoretical' in f.name] + public_api(ctx.model, [MISC], include={'qfunc'})
     check_input_immutability(ctx, 'C16.d', fns, floor=8)
@@ -378,6 +379,98 @@ def _check_overrides(ctx: Ctx, reference: Dict[str, T.Term]) -> None:
                           f.path, f.lineno, operand='scale:' + c.name)
 
 
+def _q_form(t: T.Term):
+    """(coefficient, argument) when t = coefficient * qfunc(argument) and the coefficient is free of qfunc."""
+    qs = {a for a in T.atoms_of(t) if a[0] == 'call' and a[1].split('.')[-1] == 'qfunc'}
+    if len(qs) != 1:
+        return None
+    q = qs.pop()
+    coef = T.coefficient_of(t, lambda a: a == q)
+    if coef * T.Term.atom(q) != t:
+        return None
+    return coef, T._t(q[2][0])
+
+
+def _check_ber_overrides(ctx: Ctx) -> None:
+    """C16.e: a concrete class that brings its OWN bit-error curve must keep BER <= SER <= log2(M) BER against the symbol-error
+    curve the same class resolves to.  Decided when both curves have the form a*Q(x): equal arguments -> a_ser/log2(M) <=
+    a_ber <= a_ser; arguments that differ by a constant factor -> violated for large (factor > 1) or small SNR... in fact for
+    SNR -> infinity, since Q(c x)/Q(x) tends to 0 (c > 1) or to infinity (c < 1)."""
+    import math
+    M = ctx.model
+    ctx.rule('C16.e', 'a class that overrides the bit-error curve keeps BER <= SER <= log2(M) x BER against the symbol-error curve it resolves to '
+                      '(same Q-function argument, coefficient between 1/log2(M) and 1 of the SER coefficient)', floor=0)
+    base = M.cls('Modulator')
+    covered = {'PSK.calcTheoreticalBER', 'BPSK.calcTheoreticalBER', 'QAM.calcTheoreticalBER', 'Modulator.calcTheoreticalBER'}
+    SNR = T.Term.sym('SNR')
+
+    def expanded(c, meth, depth=0):
+        f = M.lookup_method(c, meth)
+        if f is None or f.cls is base or depth > 4:
+            return None
+        t = _one(ctx, f)
+        def own(name):
+            return lambda args: expanded(c, name, depth + 1) if len(args) == 1 and args[0] == SNR else None
+        return T.substitute(t, {}, calls={'self.calcTheoreticalSER': own('calcTheoreticalSER'),
+                                          'self._calcTheoreticalSingleCarrierErrorRate': own('_calcTheoreticalSingleCarrierErrorRate'),
+                                          'self.calcTheoreticalBER': own('calcTheoreticalBER')})
+
+    for c in M.subclasses(base):
+        f = M.lookup_method(c, 'calcTheoreticalBER')
+        construct = '%s:ber-vs-ser' % c.name
+        ctx.instance('C16.e', construct)
+        if f is None or f.qualname in covered:
+            ctx.obligation('C16.e', construct, True, {'resolved_to': f.qualname if f else None, 'checked_by': 'C16.a'}, nontrivial=False)
+            continue
+        mval = None
+        init = c.methods.get('__init__')
+        if init is not None:
+            for n in ast.walk(init.node):
+                if isinstance(n, ast.Call) and isinstance(n.func, ast.Attribute) and n.func.attr == '__init__' and n.args:
+                    for a0 in n.args[:2]:
+                        if isinstance(a0, ast.Constant) and isinstance(a0.value, int) and not isinstance(a0.value, bool):
+                            mval = a0.value
+                            break
+        ber, ser = expanded(c, 'calcTheoreticalBER'), expanded(c, 'calcTheoreticalSER')
+        if ber is None or ser is None:
+            ctx.error('C16.e: cannot expand the BER / SER curves of %s (cannot tell)' % c.name)
+        k = None
+        if mval is not None and mval >= 2 and mval & (mval - 1) == 0:
+            k = int(math.log2(mval))
+            sub = {'self._M': T.Term.const(mval), 'self.M': T.Term.const(mval), 'self._K': T.Term.const(k), 'self.K': T.Term.const(k)}
+            l2b = {'level2bits': lambda args: T.Term.const(int(math.log2(int(args[0].const_value())))) if args[0].is_const() else None,
+                   'log2': lambda args: T.Term.const(int(math.log2(int(args[0].const_value())))) if args[0].is_const() and args[0].const_value() > 0
+                   and float(math.log2(args[0].const_value())).is_integer() else None}
+            ber, ser = T.substitute(T.substitute(ber, sub), {}, calls=l2b), T.substitute(T.substitute(ser, sub), {}, calls=l2b)
+        qb, qs = _q_form(ber), _q_form(ser)
+        det = {'own_formula_in': f.qualname, 'ber': ber.pretty(), 'ser': ser.pretty(), 'cardinality': mval}
+        if qb is None or qs is None or k is None:
+            ctx.error('C16.e: %s overrides the BER curve with `%s` (SER `%s`, cardinality %s): not both of the form a*Q(x) with a literal '
+                      'cardinality - cannot tell' % (c.name, ber.pretty(), ser.pretty(), mval))
+        two = T.Term.const(2)
+        ratio = T.t_pow(qb[1], two) * T.t_pow(qs[1], T.Term.const(-2))
+        same = qb[1] == qs[1] or T.rat_equal(T.t_pow(qb[1], two), T.t_pow(qs[1], two))
+        if not same and not ratio.is_const():
+            ctx.error('C16.e: the Q-function arguments of the BER (`%s`) and SER (`%s`) curves of %s are not constant multiples: cannot tell'
+                      % (qb[1].pretty(), qs[1].pretty(), c.name))
+        if not same:
+            r = ratio.const_value()
+            ctx.obligation('C16.e', construct, False, dict(det, squared_argument_ratio=str(r)))
+            ctx.violation('C16.e', f.qualname, '%s overrides the bit-error curve with %s while its symbol-error curve is %s: the Q-function '
+                          'arguments differ by the factor sqrt(%s), so BER/SER tends to %s as the SNR grows and BER <= SER <= %d x BER fails'
+                          % (c.name, ber.pretty(), ser.pretty(), r, '0' if r > 1 else 'infinity', k), f.path, f.lineno, operand='ber:' + c.name)
+            continue
+        if not (qb[0].is_const() and qs[0].is_const()):
+            ctx.error('C16.e: non-constant coefficients in the BER/SER curves of %s: cannot tell' % c.name)
+        ab, a_s = qb[0].const_value(), qs[0].const_value()
+        ok = a_s / k <= ab <= a_s
+        ctx.obligation('C16.e', construct, ok, dict(det, a_ber=str(ab), a_ser=str(a_s), bits=k))
+        if not ok:
+            ctx.violation('C16.e', f.qualname, '%s overrides the bit-error curve with %s while its symbol-error curve is %s: coefficient %s is '
+                          'outside [%s/%d, %s], so BER <= SER <= %d x BER fails for every SNR' % (c.name, ber.pretty(), ser.pretty(), ab, a_s, k, a_s, k),
+                          f.path, f.lineno, operand='ber:' + c.name)
+
+
 def synthetic():
     a = T.parse_spec('1 - (1 - B) * L')
     b = T.parse_spec('1 - (1 - B) ** L')
@@ -386,6 +479,12 @@ def synthetic():
 
 
 MUTANTS = [
+    Mutant('qpsk-own-ber-with-bpsk-argument', FUND, 'QPSK.__repr__',
+           [('replace', "return 'QPSK object'", "return 'QPSK object'\n\ndef calcTheoreticalBER(self, SNR):\n    return qfunc(np.sqrt(2 * dB2Linear(SNR)))")],
+           r'C16\.e:QPSK\.calcTheoreticalBER'),
+    Mutant('benign-qpsk-own-exact-ber', FUND, 'QPSK.__repr__',
+           [('replace', "return 'QPSK object'", "return 'QPSK object'\n\ndef calcTheoreticalBER(self, SNR):\n    return qfunc(np.sqrt(dB2Linear(SNR)))")],
+           None, benign=True),
     Mutant('per-star-instead-of-power', FUND, 'Modulator.calcTheoreticalPER',
            [('replace', '(1 - BER) ** packet_length', '(1 - BER) * packet_length')], r'C16\.a:Modulator\.calcTheoreticalPER'),
     Mutant('per-uses-SER', FUND, 'Modulator.calcTheoreticalPER',
